@@ -1,6 +1,7 @@
 package props
 
 import (
+	"os"
 	"encoding/json"
 	"fmt"
 	"strings"
@@ -550,6 +551,18 @@ func (st *c11State) snapshotRetained(c *c11Op) {
 	}
 }
 
+// liveKey identifies a live event across operators.  A new-session announcement is identified by
+// its session: the copy made for a connecting operator's session list and the broadcast copy are
+// rendered at different moments (their head times differ) and an operator may see both.
+func liveKey(e world.Event) string {
+	if e.Pkg.Head.Event == world.EvSession && e.Pkg.Body.SubEvent == world.SessNew {
+		if id, ok := e.Pkg.Body.Info["NameID"].(string); ok {
+			return "new-session:" + id
+		}
+	}
+	return canon(e.Raw)
+}
+
 // checkLive: all healthy, authenticated, fully replayed operators must have received the same
 // multiset of live broadcasts since the youngest of them finished its replay; and retained
 // broadcasts must be in the retained list.
@@ -581,7 +594,7 @@ func (st *c11State) checkLive() {
 	first := map[string]uint64{}
 	for _, c := range vs {
 		for _, e := range c.o.Events[c.liveFrom:] {
-			k := canon(e.Raw)
+			k := liveKey(e)
 			if s, ok := first[k]; !ok || e.Step < s {
 				first[k] = e.Step
 			}
@@ -591,7 +604,7 @@ func (st *c11State) checkLive() {
 	for i, c := range vs {
 		counts[i] = map[string]int{}
 		for _, e := range c.o.Events[c.liveFrom:] {
-			k := canon(e.Raw)
+			k := liveKey(e)
 			if first[k] <= from || !broadcastClass(e) {
 				continue
 			}
@@ -605,6 +618,14 @@ func (st *c11State) checkLive() {
 		}
 	}
 	res.Probe("live-broadcast-checked")
+	if os.Getenv("VERIF_DEBUG") != "" {
+		for _, c := range vs {
+			fmt.Fprintf(os.Stderr, "C11 checkLive op=%s liveFrom=%d from=%d\n", c.o.Name, c.liveFrom, from)
+			for i, e := range c.o.Events {
+				fmt.Fprintf(os.Stderr, "   %d step=%d ev=%d/%d %s\n", i, e.Step, e.Pkg.Head.Event, e.Pkg.Body.SubEvent, short(canon(e.Raw), 3000))
+			}
+		}
+	}
 	for i := 1; i < len(vs); i++ {
 		for k, n := range counts[0] {
 			if counts[i][k] != n {
